@@ -67,12 +67,24 @@ impl VStack {
     fn get_top(&mut self) -> &mut VRegister {
         self.0.last_mut().unwrap()
     }
-    fn find_upvalue(&self, v: &Arc<mir::Value>) -> Option<Reg> {
-        self.0
-            .iter()
-            .rev()
-            .skip(1)
-            .find_map(|vreg| vreg.find_keep(v))
+    /// Resolve the stack position of an upvalue captured from the enclosing function.
+    ///
+    /// One `VRegister` is pushed per MIR function in index order and never popped, so
+    /// `self.0[i]` is the register map of the MIR function `i`. An upvalue always names a
+    /// value of the *lexical parent* (`mir::Function::upperfn_i`), so it has to be looked
+    /// up there: `Value::Argument(i)` keys are not unique across functions and the most
+    /// recently generated function may be a sibling closure with another argument layout.
+    fn find_upvalue(&self, parent_fn: Option<usize>, v: &Arc<mir::Value>) -> Option<Reg> {
+        parent_fn
+            .and_then(|i| self.0.get(i))
+            .and_then(|vreg| vreg.find_keep(v))
+            .or_else(|| {
+                self.0
+                    .iter()
+                    .rev()
+                    .skip(1)
+                    .find_map(|vreg| vreg.find_keep(v))
+            })
     }
     pub fn push_stack(&mut self, v: &Arc<mir::Value>, size: u64) -> Reg {
         self.get_top().push_stack(v, size)
@@ -234,9 +246,9 @@ impl ByteCodeGenerator {
             .or_else(|| self.globals.get(v).map(|&v| v as Reg))
             .expect(format!("value {v} not found").as_str())
     }
-    fn find_upvalue(&self, upval: &Arc<mir::Value>) -> Reg {
+    fn find_upvalue(&self, parent_fn: Option<usize>, upval: &Arc<mir::Value>) -> Reg {
         self.vregister
-            .find_upvalue(upval)
+            .find_upvalue(parent_fn, upval)
             .expect("failed to find upvalue")
     }
     fn prepare_function(
@@ -673,7 +685,7 @@ impl ByteCodeGenerator {
             }
             mir::Instruction::GetUpValue(i, ty) => {
                 let upval = &mirfunc.upindexes[i as usize];
-                let v = self.find_upvalue(upval);
+                let v = self.find_upvalue(mirfunc.upperfn_i, upval);
                 let size: TypeSize = Self::word_size_for_type(ty);
                 let ouv = mir::OpenUpValue {
                     pos: v as usize,
@@ -694,7 +706,7 @@ impl ByteCodeGenerator {
             }
             mir::Instruction::SetUpValue(dst, src, ty) => {
                 let upval = &mirfunc.upindexes[dst as usize];
-                let v = self.find_upvalue(upval);
+                let v = self.find_upvalue(mirfunc.upperfn_i, upval);
                 let size: TypeSize = Self::word_size_for_type(ty);
                 let ouv = mir::OpenUpValue {
                     pos: v as usize,
